@@ -523,7 +523,12 @@ class BusExternalAuthenticator :
 
     def getUserName(self):
         import pwd
-        return pwd.getpwuid(self.creds[1]).pw_name
+        try:
+            return pwd.getpwuid(self.creds[1]).pw_name
+        except KeyError:
+            # the peer's uid need not have a passwd entry (containers,
+            # remote user databases): it is still that uid
+            return str(self.creds[1])
 
     def cancel(self):
         pass
